@@ -710,3 +710,212 @@ package gedcom
 //@ sweep C14: IndividualNode.Parents, IndividualNode.Children, IndividualNode.FamilyWithSpouse
 //@ sweep C14: NameNode.parts, NameNode.GivenName, NameNode.Surname, NameNode.Format, NameNode.String
 //@ sweep C14: Nodes.CastTo, IndividualNodes.ByPointer, FamilyNodes.ByPointer
+
+// ---------------------------------------------------------------------------
+// C20: each warning is emitted if and only if its documented condition holds.
+// The emission sites are counted with ghost variables (oncall rules on the
+// warning constructors) and the counts are tied to the documented condition
+// over the values the code reads, so a flipped comparison, an off-by-one
+// threshold or a dropped guard fails one direction of an "iff".
+//@ const YEARNS = 31557600000000000
+//@ func Age.Years
+//@   props C20
+//@   ensures result == real(age.Age) / real(YEARNS)
+//@   pure
+//@ func FamilyNode.appendMarriedOutOfRange
+//@   props C20
+//@   ghost nYoung int = 0
+//@   ghost nOld int = 0
+//@   ghost who int = 0
+//@   oncall NewMarriedOutOfRangeWarning when arg3 == "young" do nYoung = nYoung + 1; who = arg1
+//@   oncall NewMarriedOutOfRangeWarning when arg3 == "old" do nOld = nOld + 1; who = arg1
+//@   ensures young-iff: nYoung == ite(age.IsKnown && real(age.Age) < 16.0 * real(YEARNS), 1, 0)
+//@   ensures old-iff: nOld == ite(real(age.Age) > 100.0 * real(YEARNS), 1, 0)
+//@   ensures count: len(result) == len(warnings) + nYoung + nOld
+//@   ensures names: implies(nYoung + nOld > 0, who == spouse)
+
+// The accessors the emitters read are abstracted, for C20 only, as ghost
+// functions of the node they are called on (deterministic, no side effect the
+// guards can see). What they compute is the subject of C05/C06 (dates) and
+// C13/C14 (lookups); C20 is about the guards.
+//@ ghost func husbandOf(f int) int
+//@ ghost func wifeOf(f int) int
+//@ ghost func indOfH(h int) int
+//@ ghost func indOfW(w int) int
+//@ ghost func indOfC(c int) int
+//@ ghost func birthOf(i int) int
+//@ ghost func estDeathOf(i int) int
+//@ ghost func sexOf(i int) int
+//@ ghost func sxFemale(s int) bool
+//@ ghost func sxMale(s int) bool
+//@ ghost func dValid(d int) bool
+//@ ghost func dBefore(a int, b int) bool
+//@ ghost func indIs(a int, b int) bool
+//@ func FamilyNode.Husband
+//@   only C20
+//@   trusted
+//@   pure
+//@   ensures result == husbandOf(node)
+//@ func FamilyNode.Wife
+//@   only C20
+//@   trusted
+//@   pure
+//@   ensures result == wifeOf(node)
+//@ func FamilyNode.Children
+//@   only C20
+//@   trusted
+//@   pure
+//@ func HusbandNode.Individual
+//@   only C20
+//@   trusted
+//@   pure
+//@   ensures result == indOfH(node)
+//@ func WifeNode.Individual
+//@   only C20
+//@   trusted
+//@   pure
+//@   ensures result == indOfW(node)
+//@ func ChildNode.Individual
+//@   only C20
+//@   trusted
+//@   pure
+//@   ensures result == indOfC(node)
+//@ func IndividualNode.Birth
+//@   only C20
+//@   trusted
+//@   pure
+//@   ensures result0 == birthOf(node)
+//@ func IndividualNode.EstimatedDeathDate
+//@   only C20
+//@   trusted
+//@   pure
+//@   ensures result0 == estDeathOf(node)
+//@ func IndividualNode.Age
+//@   only C20
+//@   trusted
+//@   pure
+//@ func IndividualNode.AgeAt
+//@   only C20
+//@   trusted
+//@   pure
+//@ func IndividualNode.Sex
+//@   only C20
+//@   trusted
+//@   pure
+//@   ensures result == sexOf(node)
+//@ func SexNode.IsFemale
+//@   only C20
+//@   trusted
+//@   pure
+//@   ensures result == sxFemale(node)
+//@ func SexNode.IsMale
+//@   only C20
+//@   trusted
+//@   pure
+//@   ensures result == sxMale(node)
+//@ func DateNode.IsValid
+//@   only C20
+//@   trusted
+//@   pure
+//@   ensures result == dValid(node)
+//@ func DateNode.IsBefore
+//@   only C20
+//@   trusted
+//@   pure
+//@   ensures result == dBefore(node, node2)
+//@ func DateNode.Sub
+//@   only C20
+//@   trusted
+//@   pure
+//@ func IndividualNode.Is
+//@   only C20
+//@   trusted
+//@   pure
+//@   ensures result == indIs(node, individual)
+//@ func IndividualNodePairs.Has
+//@   only C20
+//@   trusted
+//@   pure
+
+// child born before parent: per child, one warning for the father iff both
+// births are valid and the child's is before the father's; same for the mother.
+//@ func FamilyNode.childrenBornBeforeParentsWarnings
+//@   props C20
+//@   ghost nF int = 0
+//@   ghost nM int = 0
+//@   let father = indOfH(husbandOf(node))
+//@   let mother = indOfW(wifeOf(node))
+//@   oncall NewChildBornBeforeParentWarning#1 do nF = nF + 1
+//@   oncall NewChildBornBeforeParentWarning#2 do nM = nM + 1
+//@   oncall NewChildBornBeforeParentWarning#1 check names-father: arg0 == indOfH(husbandOf(node)) && arg1 == child
+//@   oncall NewChildBornBeforeParentWarning#2 check names-mother: arg0 == indOfW(wifeOf(node)) && arg1 == child
+//@   loop 1 iter father-iff: nF - old(nF) == ite(dValid(birthOf(indOfC(child))) && dValid(birthOf(father)) && dBefore(birthOf(indOfC(child)), birthOf(father)), 1, 0)
+//@   loop 1 iter mother-iff: nM - old(nM) == ite(dValid(birthOf(indOfC(child))) && dValid(birthOf(mother)) && dBefore(birthOf(indOfC(child)), birthOf(mother)), 1, 0)
+//@   loop 1 invariant count: len(warnings) == nF + nM
+//@   ensures count: len(result) == nF + nM
+
+// individual too old.
+//@ func IndividualNode.tooOldWarnings
+//@   props C20
+//@   ghost n int = 0
+//@   ghost maxAge int = 0
+//@   oncall IndividualNode.Age do maxAge = result1.Age
+//@   oncall NewIndividualTooOldWarning do n = n + 1
+//@   oncall NewIndividualTooOldWarning check names: arg0 == node
+//@   ensures iff: n == ite(real(maxAge) > 100.0 * real(YEARNS) && estDeathOf(node) != 0, 1, 0)
+//@   ensures count: len(result) == n
+
+// inverted spouses.
+//@ func FamilyNode.inversePartnerWarnings
+//@   props C20
+//@   ghost n int = 0
+//@   oncall NewInverseSpousesWarning do n = n + 1
+//@   oncall NewInverseSpousesWarning check names: arg0 == node && arg1 == indOfH(husbandOf(node)) && arg2 == indOfW(wifeOf(node))
+//@   ensures iff: n == ite(sxFemale(sexOf(indOfH(husbandOf(node)))) && sxMale(sexOf(indOfW(wifeOf(node)))), 1, 0)
+//@   ensures count: len(result) == n
+
+// unparsable date.
+//@ func DateNode.Warnings
+//@   props C20
+//@   ghost n int = 0
+//@   oncall NewUnparsableDateWarning do n = n + 1
+//@   oncall NewUnparsableDateWarning check names: arg0 == node
+//@   ensures iff: n == ite(!dValid(node), 1, 0)
+//@   ensures count: len(result) == n
+
+// married too young / too old: per marriage and per existing spouse exactly
+// one call of the age check, with that spouse and that spouse's age.
+//@ func FamilyNode.marriedOutOfRange
+//@   props C20
+//@   ghost calls int = 0
+//@   ghost lastAge int = 0
+//@   ghost lastKnown bool = false
+//@   ghost lastWho int = 0
+//@   oncall IndividualNode.AgeAt do lastAge = result1.Age; lastKnown = result1.IsKnown; lastWho = arg0
+//@   oncall FamilyNode.appendMarriedOutOfRange do calls = calls + 1
+//@   oncall FamilyNode.appendMarriedOutOfRange check passes: arg2.Age == lastAge && arg2.IsKnown == lastKnown && arg3 == lastWho
+//@   oncall FamilyNode.appendMarriedOutOfRange check spouse: (arg3 == indOfH(husbandOf(node)) || arg3 == indOfW(wifeOf(node))) && arg3 != 0
+//@   loop 1 iter per-spouse: calls - old(calls) == ite(indOfH(husbandOf(node)) != 0, 1, 0) + ite(indOfW(wifeOf(node)) != 0, 1, 0)
+
+// siblings born too close: per ordered pair visited, one warning iff the two
+// are different people, both birth ranges are narrower than nine months, the
+// difference is computable, at least two days, less than nine months on either
+// bound, and the unordered pair has not been reported yet.
+//@ const NINEMONTHS = 23673600000000000
+//@ const TWODAYS = 172800000000000
+//@ func FamilyNode.siblingsBornTooCloseWarnings
+//@   props C20
+//@   ghost nS int = 0
+//@   ghost w1 int = 0
+//@   ghost w2 int = 0
+//@   ghost same bool = false
+//@   ghost hasP bool = false
+//@   oncall DateRange.Duration#1 do w1 = result.Duration
+//@   oncall DateRange.Duration#2 do w2 = result.Duration
+//@   oncall IndividualNode.Is do same = result
+//@   oncall IndividualNodePairs.Has do hasP = result
+//@   oncall NewSiblingsBornTooCloseWarning do nS = nS + 1
+//@   oncall NewSiblingsBornTooCloseWarning check names: arg0 == child1 && arg1 == child2
+//@   loop 2 invariant narrow1: w1 < NINEMONTHS
+//@   loop 2 iter iff: nS - old(nS) == ite(!same && isnil(err) && w2 < NINEMONTHS && min.Duration >= TWODAYS && (min.Duration < NINEMONTHS || max.Duration < NINEMONTHS) && !hasP, 1, 0)
+//@   loop 1 iter wide1: implies(w1 >= NINEMONTHS, nS == old(nS))
